@@ -212,7 +212,8 @@ pub fn run(p: &Params) -> Report {
         let mut w = match case % 8 {
             0 => World::fabricated(case_seed, NetID::Testnet, 496 + r.below(3), mult, 1 << 40),
             1 => World::fabricated(case_seed, NetID::Mainnet, *r.pick(&[1_047_996u64, 949_997, 829_997, 1_199_996]), mult, 1 << 40),
-            2 => World::fabricated(case_seed, NetID::Custom02, 199_996 + r.below(3), mult, 1 << 40),
+            2 => World::fabricated_staked(case_seed, NetID::Custom02, 199_996 + r.below(3), mult, 1 << 40, 4),
+            4 => World::fabricated_staked(case_seed, *r.pick(&[NetID::Custom02, NetID::Custom08, NetID::Mainnet]), (5 + r.below(3)) * STAKE_EPOCH + *r.pick(&[0u64, 1, 7, 199_995, 199_997]), mult, 1 << 40, 5),
             3 => World::fabricated(case_seed, NetID::Custom08, 3, mult, 0),
             _ => World::random(case_seed),
         };
